@@ -7,6 +7,9 @@
 //   - writes the observation as a Coq case for Check/C09.v (model comparison + closedness oracle),
 //   - runs the float oracles here: enclosed volume > 0, every vertex on a grid edge with a sign change
 //     (parameter in [0,1]), orientation against the sign change, and an independent closedness count.
+// Round 4: MarchOnAttribute(Parallel) on a non-position attribute of two-attribute fields (Desc.Attr), repeated
+// March of one canvas and a March between two AddField calls (Desc.Remarch), AddFieldParallel2 (Desc.AddPar2), and
+// the second marching path Field.March / Field.Voxelize compared with the canvas result (Desc.FieldMarch).
 package main
 
 import (
